@@ -59,7 +59,8 @@ def gen_script(rng, thorough):
         ver[0] += 1
         n = rng.choice([1, 4, 4, 2])          # scalar (inline) and heap-allocated values
         return [dbl(ki * 100000 + ver[0] * 10 + j) for j in range(n)]
-    roles = ["r", "w"] + [rng.choice(["r", "r", "w", "c", "m"]) for _ in range(nthreads - 2)]
+    with_load = rng.random() < 0.3
+    roles = ["r", "w"] + [rng.choice(["r", "r", "w", "c", "m", "s"]) for _ in range(nthreads - 2)]
     secs = []
     for role in roles:
         ops = []
@@ -69,11 +70,16 @@ def gen_script(rng, thorough):
             r = rng.random()
             kind = {"r": "F" if r < 0.95 else "I", "w": "I" if r < 0.85 else "F",
                     "c": "C" if r < 0.4 else ("X" if r < 0.7 else "F"),
-                    "m": "F" if r < 0.5 else ("I" if r < 0.85 else ("C" if r < 0.93 else "X"))}[role]
+                    "m": "F" if r < 0.5 else ("I" if r < 0.85 else ("C" if r < 0.93 else "X")),
+                    "s": "V" if r < 0.4 else ("L" if r < 0.6 and with_load else ("F" if r < 0.85 else "I"))}[role]
             if kind == "F":
                 ops.append("F," + k)
             elif kind == "I":
                 ops.append("I,%s,%s" % (k, ",".join(value(ki))))
+            elif kind == "V":
+                ops.append("V")
+            elif kind == "L":
+                ops.append("L,%d,%s,%s" % (rng.randint(1, 3), k, ",".join(value(ki))))
             elif kind == "C":
                 ops.append("C")
             else:
@@ -101,6 +107,8 @@ def stored_values(line):
             p = o.split(",")
             if p[0] == "I":
                 vals.setdefault((p[1], p[2]), set()).add(",".join(p[3:]) or "-")
+            if p[0] == "L":
+                vals.setdefault((p[2], p[3]), set()).add(",".join(p[4:]) or "-")
     return vals
 
 
@@ -117,7 +125,7 @@ def oracle(line, out):
     secs = line.split("|")[1:]
     toks = out.split()
     for t, sec in enumerate(secs):
-        finds = [o.split(",") for o in sec.split() if o[0] == "F"]
+        finds = [o.split(",") for o in sec.split() if o.startswith("F,")]
         tok = next((x for x in toks if x.startswith("r%d=" % t)), None)
         if tok is None:
             return "no result line for thread %d" % t
@@ -201,7 +209,7 @@ def run(ck):
             if line[0] == "S":
                 if interleaved(out):
                     ck.nontriv(line)
-                if rep == 0:
+                if rep == 0 and " L," not in line:      # load has no scheduling point: oracle + TSan only
                     mlines.append(line + " @ " + out.split("trace=")[-1])
                     midx.append(k)
             else:
